@@ -45,6 +45,9 @@ Multi(n) == n.k # "lit" /\ n.kids # <<>>
 \* key                : "none" | "note" | "rules"   (object properties: between the key and the value, which then stands on the next line)
 \* one                : TRUE = a non-empty container written on one line (no slots inside it)
 Ann == {"none", "note", "rules"}
+\* form of the annotations of a layout: 0 all inline (//), 1 all written as multi-line annotations (/* */), 2 those after an opening
+\* bracket or a key as /* */ and the others inline - same owner, same demands
+Block(form, slot) == form = 1 \/ (form = 2 /\ slot \in {"open", "key"})
 Slots == [open : Ann, val : Ann, close : Ann, key : Ann, one : BOOLEAN]
 \* a canonical "nothing here" for the slots a node does not have keeps the layouts distinct
 NoSlot == [open |-> "none", val |-> "none", close |-> "none", key |-> "none", one |-> FALSE]
@@ -63,7 +66,7 @@ WellFormed(root, L) ==
 
 \* ---- tokens ----
 T(t, id) == [t |-> t, id |-> id]
-AnnT(c, id, slot) == IF c \in {"note", "rules"} THEN <<[t |-> c, id |-> id, slot |-> slot]>> ELSE <<>>
+AnnT(c, id, slot) == IF c # "none" THEN <<[t |-> c, id |-> id, slot |-> slot]>> ELSE <<>>
 RECURSIVE Toks(_, _, _, _, _)
 Toks(root, n, last, inline, L) ==
   LET l == L[n.id]
@@ -83,7 +86,7 @@ Toks(root, n, last, inline, L) ==
 Tokens(root, L) == Toks(root, root, TRUE, FALSE, L)
 
 NoteText(id, slot) == "n" \o ToString(id) \o slot
-Piece(root, tk) ==
+Piece(form, tk) ==
   CASE tk.t = "key"   -> "\"k" \o ToString(tk.id) \o "\": "
     [] tk.t = "lit"   -> "1"
     [] tk.t = "ob"    -> "{"
@@ -92,10 +95,10 @@ Piece(root, tk) ==
     [] tk.t = "ae"    -> "]"
     [] tk.t = "comma" -> ", "
     [] tk.t = "nl"    -> "\n"
-    [] tk.t = "note"  -> " // " \o NoteText(tk.id, tk.slot)
-    [] tk.t = "rules" -> " // {nullable: true}"
+    [] tk.t = "note"  -> IF Block(form, tk.slot) THEN " /* " \o NoteText(tk.id, tk.slot) \o " */" ELSE " // " \o NoteText(tk.id, tk.slot)
+    [] tk.t = "rules" -> IF Block(form, tk.slot) THEN " /* {nullable: true} */" ELSE " // {nullable: true}"
 RECURSIVE Text(_, _, _)
-Text(root, ts, i) == IF i > Len(ts) THEN "" ELSE Piece(root, ts[i]) \o Text(root, ts, i + 1)
+Text(form, ts, i) == IF i > Len(ts) THEN "" ELSE Piece(form, ts[i]) \o Text(form, ts, i + 1)
 
 \* ---- layer R ----
 Begins(tk) == tk.t \in {"ob", "ab", "lit"}
@@ -145,7 +148,7 @@ RECURSIVE Run(_, _, _, _)
 Run(root, s, ts, i) == IF i > Len(ts) THEN s ELSE Run(root, IStep(root, s, ts[i]), ts, i + 1)
 
 \* ---- exploration ----
-VARIABLES sh, lay
+VARIABLES sh, lay, frm
 \* the slots a node has by itself (what WellFormed says about one node), so that the layouts are built as a product of small sets
 NodeSlots(root, i) ==
   IF i > Size(root) THEN {NoSlot}
@@ -160,8 +163,9 @@ Init == /\ sh \in DOMAIN Shapes
                                         d \in NodeSlots(Shapes[sh], 4), e \in NodeSlots(Shapes[sh], 5)}
         /\ WellFormed(Shapes[sh], lay)
         /\ NAnn(Shapes[sh], lay) <= MaxAnn
-Next == UNCHANGED <<sh, lay>>
-Spec == Init /\ [][Next]_<<sh, lay>>
+        /\ frm \in (IF NAnn(Shapes[sh], lay) = 0 THEN {0} ELSE {0, 1, 2})
+Next == UNCHANGED <<sh, lay, frm>>
+Spec == Init /\ [][Next]_<<sh, lay, frm>>
 Root == Shapes[sh]
 Ts == Tokens(Root, lay)
 Final == Run(Root, IInit(Root), Ts, 1)
@@ -170,6 +174,6 @@ Agree ==
   rv = "unspec" \/
   /\ Final.err = rv
   /\ (rv = "ok" => \A id \in 1..Size(Root) : Final.note[id] = RNote(Ts, id) /\ ((id \in Final.rules) <=> RRules(Ts, id)))
-Emit == Export => PrintT("@@CASE " \o ToJson([text |-> Text(Root, Ts, 1), want |-> RVerdict(Root, Ts),
+Emit == Export => PrintT("@@CASE " \o ToJson([text |-> Text(frm, Ts, 1), want |-> RVerdict(Root, Ts),
                                                nodes |-> [id \in 1..Size(Root) |-> [note |-> RNote(Ts, id), rules |-> RRules(Ts, id)]]]))
 =================================================================================
